@@ -142,7 +142,34 @@ static int pool_mode(const std::string &eng, size_t depth) {
   ex.explore(depth); return 0;
 }
 
+// ---------------------------------------------------------------------------------------------
+// heap lane (engine I): n one-shot timers with intervals 1..n ms enabled in EVERY order, one of them then disabled or destroyed,
+// the clock then advanced 1 ms per pass: every remaining timer must fire exactly in the pass of its deadline, in deadline order.
+static int heap_mode(const std::string &eng, int n, int part, int nparts) {
+  size_t runs = 0, bad = 0; std::vector<int> perm(n); for (int i = 0; i < n; i++) perm[i] = i + 1;
+  size_t pi = 0;
+  do { if ((int)(pi++ % (size_t)nparts) != part) continue;
+    for (int victim = 0; victim < n; victim++) for (int how = 0; how < 2; how++) {
+      vnow = 1000000; Loop *loop = Loop::New(eng); auto cl = static_cast<CommonLoop *>(loop); cl->timer_object_pool_.keep_number_ = 0;
+      std::vector<TimerEvent *> tm(n); std::vector<long long> fired_at(n, -1); std::string viol; long long last_dl = -1;
+      for (int i = 0; i < n; i++) { tm[i] = loop->newTimerEvent("h"); tm[i]->initialize(std::chrono::milliseconds(perm[i]), Event::Mode::kOneshot);
+        tm[i]->setCallback([&, i] { if (i == victim) viol = "heap-removed-timer-fired"; if (fired_at[i] >= 0) viol = "heap-oneshot-fired-twice"; fired_at[i] = vnow;
+          long long dl = 1000000 + perm[i]; if (vnow < dl) viol = "heap-fired-early"; if (dl < last_dl) viol = "heap-not-in-deadline-order"; last_dl = dl; });
+        tm[i]->enable(); }
+      if (how == 0) tm[victim]->disable(); else { delete tm[victim]; tm[victim] = nullptr; }
+      for (int t = 1; t <= n + 1 && viol.empty(); t++) { vnow = 1000000 + t; pass(loop);
+        for (int i = 0; i < n; i++) if (i != victim && perm[i] <= t && fired_at[i] < 0) viol = "heap-due-timer-did-not-fire"; }
+      runs++;
+      if (!viol.empty() && bad++ < 3) { std::string d; for (int i = 0; i < n; i++) d += std::to_string(perm[i]) + " "; printf("@VIOL sig=%s :: %s: enable one-shot timers with intervals [%s] in this order, then %s #%d (interval %d), then advance 1 ms per pass\n", viol.c_str(), eng.c_str(), d.c_str(), how ? "destroy" : "disable", victim, perm[victim]); }
+      if (runs == 1) { std::string d; for (int i = 0; i < n; i++) d += std::to_string(perm[i]) + " "; printf("@SAMPLE heap lane %s n=%d: order [%s] remove #%d\n", eng.c_str(), n, d.c_str(), victim); }
+      for (auto *t : tm) delete t; pass(loop); delete loop;
+    }
+  } while (std::next_permutation(perm.begin(), perm.end()));
+  printf("@STAT states=%zu transitions=%zu executions=%zu violations=%zu\n", runs, runs * (size_t)(n + 1), runs, bad); return 0;
+}
+
 int main(int argc, char **argv) {
+  if (argc > 1 && std::string(argv[1]) == "heap") { hx::install_crash_reporter("C02-crash"); hx::set_current("heap lane"); return heap_mode(argc > 2 ? argv[2] : "epoll", argc > 3 ? atoi(argv[3]) : 6, argc > 4 ? atoi(argv[4]) : 0, argc > 5 ? atoi(argv[5]) : 1); }
   std::string mode = argc > 1 ? argv[1] : "timer", eng = argc > 2 ? argv[2] : "epoll"; size_t depth = argc > 3 ? atoi(argv[3]) : 5; int cfg = argc > 4 ? atoi(argv[4]) : 0; g_part = argc > 5 ? atoi(argv[5]) : 0; g_nparts = argc > 6 ? atoi(argv[6]) : 1;
   hx::install_crash_reporter("C02-crash");
   return mode == "pool" ? pool_mode(eng, depth) : timer_mode(eng, depth, cfg);
